@@ -289,6 +289,16 @@ fn corr(seed: u64, n: usize) -> Vec<String> {
                 out.push(format!("{}.he {} {} => {}", name, deg, if flat.is_empty() { "-".to_string() } else { hx(&flat) }, res(he(deg, &flat), |v| hx(&v))));
             }
         }
+        // raw model: internal words of the digest of hash_elements(new(r0), new(r1), ..)
+        for k in [0usize, 1, rate, rate + 1] {
+            let flat: Vec<u64> = (0..k).map(|_| rand_elem(&mut r, m)).collect();
+            let raw: Result<Vec<u64>, String> = catch(AssertUnwindSafe(|| match name {
+                "rp64" => { let e: Vec<B64> = flat.iter().map(|&v| B64::new(v)).collect(); Rp64_256::hash_elements(&e).as_elements().iter().map(|x| x.inner()).collect() }
+                "rp62" => { let e: Vec<B62> = flat.iter().map(|&v| B62::new(v)).collect(); Rp62_248::hash_elements(&e).as_elements().iter().map(|x| unsafe { core::mem::transmute::<B62, u64>(*x) }).collect() }
+                _ => { let e: Vec<B64> = flat.iter().map(|&v| B64::new(v)).collect(); RpJive64_256::hash_elements(&e).as_elements().iter().map(|x| x.inner()).collect() }
+            }));
+            out.push(format!("{}.heraw {} => {}", name, if flat.is_empty() { "-".to_string() } else { hx(&flat) }, res(raw, |v| hx(&v))));
+        }
         for _ in 0..(n / 200).max(6) {
             let a: Vec<u64> = (0..4).map(|_| rand_elem(&mut r, m)).collect();
             let b: Vec<u64> = (0..4).map(|_| rand_elem(&mut r, m)).collect();
